@@ -67,6 +67,14 @@ def _run(ctx: C.Ctx):
         if r < 0.25 and (n - len(L)) >= N:
             case.gqr["n_const_sensors"] = 0
             case.meta["s"] = 0
+        if rng.random() < 0.15 and not case.meta.get("omit_all_sensors"):
+            # a prior ranking that belongs to ANOTHER matrix of the same size (a GQR object keeps its keywords between fits, e.g. across
+            # update_n_basis_modes): the masks are then computed from that prior – and within each class the choice is still greedy
+            # on THIS matrix (clause 1 has no premise about the prior; the two reductions do, and are not judged here)
+            other = gen.gen_generic_matrix(rng, n, case.B.shape[1])
+            case.gqr["all_sensors"] = np.array(QR().fit(other).get_sensors()).copy()
+            case.meta["foreign_prior"] = True
+            ctx.count("e2e:prior_ranking_of_another_matrix")
         ctx.evaluations += 1
         ctx.count("e2e:" + case.meta["opt"])
         res = case.run_real()
@@ -77,6 +85,21 @@ def _run(ctx: C.Ctx):
         if not c05.judge_gqr_case(ctx, case, res, J, idx, "gqr"):
             continue
         A = case.gqr["all_sensors"].tolist()
+        if case.meta.get("foreign_prior"):
+            # with a prior that belongs to another matrix the rule's ban list is whatever that prior makes it; what remains true – and is
+            # judged – is the title's claim: the pick is the largest residual among the sensors the rule PERMITS at that step (the exact
+            # model's mask, the object of gqr_own_class_max).  (First version judged in/out-of-region classes here and raised a false
+            # alarm on the clean tree: a banned region sensor may well have the larger residual.)
+            if J.rejected_step is not None and J.rejected_step < N:
+                v = J.verdicts[J.rejected_step]
+                ctx.violation("concrete",
+                              f"GQR {opt} with a prior ranking of another matrix: step {J.rejected_step} picks sensor {v['chosen']} although a permitted "
+                              f"sensor has a larger residual (ranking {res['ranking']})",
+                              {"signature": f"permitted-class-max:{opt}", "case": case.describe(), "observed": res["ranking"], "step": J.rejected_step,
+                               "index": idx})
+            else:
+                ctx.nontriv(("foreign-prior", opt, case.B.shape, tuple(L), N, s))
+            continue
         # (a) own-class maximality
         bad = own_class_ok(case, res, J, N)
         if bad is not None:
